@@ -20,14 +20,14 @@ RULE = ("seeded histories over pools of user arrays (own memory / F / strided vi
         "whole upstream is uncleared has all its arrays (inputs, their bases, out=, output and its base) read-only; I2: an array to which no live "
         "op refers (nor to its owner) has its original writeable flag (owner's original for views taken while locked; natively read-only stays "
         "read-only); at full quiescence every array ever seen is back to its original flag. Thorough adds GC injection: gc.collect() fired from "
-        "sys.monitoring PY_START/PY_RETURN events inside tensor_base.py / lock_management.py frames. Non-trivial: >=3 guarded ops and >=1 "
+        "sys.monitoring PY_START/PY_RESUME events (function entry and generator resumption: eval-breaker checks, where CPython itself runs a pending collection) inside tensor_base.py / lock_management.py frames. Non-trivial: >=3 guarded ops and >=1 "
         "release; distinct = hash of the (lock|unlock) event-role sequence = interleavings seen. Histories also contain the orphan pattern (a consumed tensor whose graph is cleared and which is then updated in "
         "place while its consumer lives: the array the consumer was recorded with then belongs to a placeholder only). At quiescence the "
         "lock tables are inspected; if they still know ids of arrays that are gone, fresh user arrays are allocated until one REUSES such "
         "an id, given a native flag (read-only / writeable), run through a guarded operation and dropped: the flag must be back (id-reuse probe).")
 ASSUMPTIONS = ["between 'upstream partly cleared' and 'operation dead' the flag is unspecified and not judged",
                "internal table residue (_array_tracker) is not judged, only flags"]
-TIERS = {"quick": {"cases": 2500, "nst": (4, 14), "gcinject": 0.03}, "thorough": {"cases": 16000, "nst": (6, 30), "gcinject": 0.04}}
+TIERS = {"quick": {"cases": 2500, "nst": (4, 14), "gcinject": 0.05}, "thorough": {"cases": 16000, "nst": (6, 30), "gcinject": 0.07}}
 FLOORS = {"quick": {"I1_evals": 20000, "I2_evals": 40000, "quiescent_arrays": 8000, "reuse_probes": 40},
           "thorough": {"I1_evals": 100000, "I2_evals": 200000, "quiescent_arrays": 40000, "reuse_probes": 200}}
 
@@ -480,9 +480,13 @@ def run_case(case):
                     injected[0] += 1
                     gc.collect()
 
+            # Collections are injected only where CPython itself can run one: the RESUME instruction at the start of a function (and at the
+            # resumption of a generator) is an eval-breaker check, the place where 3.12 runs a pending collection.  A function RETURN is not
+            # (an earlier version injected there too and manufactured a collection between `array_is_tracked(arr)` returning True and the
+            # `_array_counter[arr_id] += 1` that relies on it - a window with no allocation and no check in it, see DESIGN.md section 10).
             mon_.register_callback(tool, mon_.events.PY_START, cb)
-            mon_.register_callback(tool, mon_.events.PY_RETURN, cb)
-            mon_.set_events(tool, mon_.events.PY_START | mon_.events.PY_RETURN)
+            mon_.register_callback(tool, mon_.events.PY_RESUME, cb)
+            mon_.set_events(tool, mon_.events.PY_START | mon_.events.PY_RESUME)
     lockseq = []
     try:
         for i, s in enumerate(case["st"]):
@@ -618,6 +622,22 @@ def run_case(case):
 
 
 def debug_dump(mon, tensors_alive):
+    ev = None
+    if hasattr(sys, "monitoring") and sys.monitoring.get_tool(sys.monitoring.PROFILER_ID):
+        ev = sys.monitoring.get_events(sys.monitoring.PROFILER_ID)     # (the dump must not consume the GC-injection schedule)
+        sys.monitoring.set_events(sys.monitoring.PROFILER_ID, 0)
+    try:
+        _debug_dump(mon, tensors_alive)
+    finally:
+        if ev is not None:
+            sys.monitoring.set_events(sys.monitoring.PROFILER_ID, ev)
+
+
+def _debug_dump(mon, tensors_alive):
+    from mygrad._utils import lock_management as lm
+    print("  tables:", dict(lm._array_counter), list(lm._array_tracker), dict(lm._views_waiting_for_unlock))
+    print("  lock events:", [(e[0], e[1], e[3]) for e in REG.lock_events[getattr(mon, "_dbg_seen", 0):]])
+    mon._dbg_seen = len(REG.lock_events)
     live_ops = [(r(), g) for r, g in mon.opguard.values() if r() is not None]
     print("  live ops:", [(type(o).__name__, g, [id(v.data) for v in o.variables]) for o, g in live_ops])
     print("  arrays:", [(n, aid, r() is not None and bool(r().flags.writeable), o) for aid, (r, o, n) in mon.arrays.items()])
